@@ -18,60 +18,55 @@ const uint8_t *cqv_d0;
 size_t cqv_len0;
 uint32_t cqv_g;
 size_t cqv_n;
-/* block lemma called by the inserted ghost code; contract + proof below */
-void cqv_lemma_block8(uint32_t c, uint8_t d0, uint8_t d1, uint8_t d2, uint8_t d3,
-                      uint8_t d4, uint8_t d5, uint8_t d6, uint8_t d7);
+/* spec steps called by the inserted ghost code.  Their BODIES are the bit-serial definition
+ * (spec_crc32_byte, eight of them for a block); their CONTRACTS (proved below) say that the value
+ * equals the table expression the real code uses. */
+uint32_t cqv_spec_byte(uint32_t s, uint8_t d);
+uint32_t cqv_spec_block8(uint32_t c, uint8_t d0, uint8_t d1, uint8_t d2, uint8_t d3,
+                         uint8_t d4, uint8_t d5, uint8_t d6, uint8_t d7);
 
 #include "src/util/crc32.c"
 
 /* ---------------------------------------------------------------------------------------------
- * Expressions over the REAL tables
+ * Expressions over the REAL tables.  Macros (not functions) on purpose: the same expression text
+ * over the same variables is bit-blasted once, so a lemma instance and the statement that uses it
+ * share their table look-ups literally.
  * ------------------------------------------------------------------------------------------- */
-#define CQV_T(k, x) (crc32_tables[k][(x) & 0xFFu])
-#define CQV_Y(s, i) ((uint32_t)((s) >> (8 * (i))) & 0xFFu)
 #define CQV_D8 uint8_t d0, uint8_t d1, uint8_t d2, uint8_t d3, uint8_t d4, uint8_t d5, uint8_t d6, uint8_t d7
 #define CQV_A8 d0, d1, d2, d3, d4, d5, d6, d7
+#define CQV_IX(x) ((uint32_t)(x) & 0xFFu)
+#define CQV_T(k, ix) (crc32_tables[k][ix])
+/* table index of lane i: byte i of register s, xor data byte d */
+#define CQV_L0(s, d) CQV_IX((s) ^ (d))
+#define CQV_L1(s, d) CQV_IX(((s) >> 8) ^ (d))
+#define CQV_L2(s, d) CQV_IX(((s) >> 16) ^ (d))
+#define CQV_L3(s, d) CQV_IX(((s) >> 24) ^ (d))
+#define CQV_P(d) CQV_IX(d)
+/* bytes of T0[x] as table indices */
+#define CQV_R0(x) CQV_IX(CQV_T(0, x))
+#define CQV_R1(x) CQV_IX(CQV_T(0, x) >> 8)
+#define CQV_R2(x) CQV_IX(CQV_T(0, x) >> 16)
+#define CQV_R3(x) CQV_IX(CQV_T(0, x) >> 24)
 
 /* the tail-loop statement of the real code, as an expression: one byte d into register s */
-static inline uint32_t cqv_B(uint32_t s, uint8_t d) { return crc32_tables[0][(s ^ d) & 0xFF] ^ (s >> 8); }
+#define CQV_B(s, d) (CQV_T(0, CQV_L0(s, d)) ^ ((s) >> 8))
 
-/* H_k(s, d_k..d_7): "block expression for the last 8-k bytes of a block, register s".
+/* H_k(s): "block expression for the last 8-k bytes d_k..d_7 of a block, register s".
  * H_0 is the block statement of the real code (one = LE32(d0..d3) ^ s, two = LE32(d4..d7)),
- * H_7 is the byte step, H_8 is the register itself. */
-static inline uint32_t cqv_H0(uint32_t s, CQV_D8) {
-  return CQV_T(7, CQV_Y(s, 0) ^ d0) ^ CQV_T(6, CQV_Y(s, 1) ^ d1) ^ CQV_T(5, CQV_Y(s, 2) ^ d2) ^ CQV_T(4, CQV_Y(s, 3) ^ d3) ^
-         CQV_T(3, d4) ^ CQV_T(2, d5) ^ CQV_T(1, d6) ^ CQV_T(0, d7);
-}
-static inline uint32_t cqv_H1(uint32_t s, CQV_D8) {
-  return CQV_T(6, CQV_Y(s, 0) ^ d1) ^ CQV_T(5, CQV_Y(s, 1) ^ d2) ^ CQV_T(4, CQV_Y(s, 2) ^ d3) ^ CQV_T(3, CQV_Y(s, 3) ^ d4) ^
-         CQV_T(2, d5) ^ CQV_T(1, d6) ^ CQV_T(0, d7);
-}
-static inline uint32_t cqv_H2(uint32_t s, CQV_D8) {
-  return CQV_T(5, CQV_Y(s, 0) ^ d2) ^ CQV_T(4, CQV_Y(s, 1) ^ d3) ^ CQV_T(3, CQV_Y(s, 2) ^ d4) ^ CQV_T(2, CQV_Y(s, 3) ^ d5) ^
-         CQV_T(1, d6) ^ CQV_T(0, d7);
-}
-static inline uint32_t cqv_H3(uint32_t s, CQV_D8) {
-  return CQV_T(4, CQV_Y(s, 0) ^ d3) ^ CQV_T(3, CQV_Y(s, 1) ^ d4) ^ CQV_T(2, CQV_Y(s, 2) ^ d5) ^ CQV_T(1, CQV_Y(s, 3) ^ d6) ^
-         CQV_T(0, d7);
-}
-static inline uint32_t cqv_H4(uint32_t s, CQV_D8) {
-  return CQV_T(3, CQV_Y(s, 0) ^ d4) ^ CQV_T(2, CQV_Y(s, 1) ^ d5) ^ CQV_T(1, CQV_Y(s, 2) ^ d6) ^ CQV_T(0, CQV_Y(s, 3) ^ d7);
-}
-static inline uint32_t cqv_H5(uint32_t s, CQV_D8) {
-  return CQV_T(2, CQV_Y(s, 0) ^ d5) ^ CQV_T(1, CQV_Y(s, 1) ^ d6) ^ CQV_T(0, CQV_Y(s, 2) ^ d7) ^ (s >> 24);
-}
-static inline uint32_t cqv_H6(uint32_t s, CQV_D8) {
-  return CQV_T(1, CQV_Y(s, 0) ^ d6) ^ CQV_T(0, CQV_Y(s, 1) ^ d7) ^ (s >> 16);
-}
-static inline uint32_t cqv_H7(uint32_t s, CQV_D8) { return CQV_T(0, CQV_Y(s, 0) ^ d7) ^ (s >> 8); }
-static inline uint32_t cqv_H8(uint32_t s, CQV_D8) { return s; }
-
-/* eight bit-serial byte steps (the specification of one block) */
-static inline uint32_t cqv_spec8(uint32_t c, CQV_D8) {
-  c = spec_crc32_byte(c, d0); c = spec_crc32_byte(c, d1); c = spec_crc32_byte(c, d2); c = spec_crc32_byte(c, d3);
-  c = spec_crc32_byte(c, d4); c = spec_crc32_byte(c, d5); c = spec_crc32_byte(c, d6); c = spec_crc32_byte(c, d7);
-  return c;
-}
+ * H_7 is the byte step, H_8 is the register itself.  d0..d7 are taken from the scope. */
+#define CQV_H0(s) (CQV_T(7, CQV_L0(s, d0)) ^ CQV_T(6, CQV_L1(s, d1)) ^ CQV_T(5, CQV_L2(s, d2)) ^ CQV_T(4, CQV_L3(s, d3)) ^ \
+                   CQV_T(3, CQV_P(d4)) ^ CQV_T(2, CQV_P(d5)) ^ CQV_T(1, CQV_P(d6)) ^ CQV_T(0, CQV_P(d7)))
+#define CQV_H1(s) (CQV_T(6, CQV_L0(s, d1)) ^ CQV_T(5, CQV_L1(s, d2)) ^ CQV_T(4, CQV_L2(s, d3)) ^ CQV_T(3, CQV_L3(s, d4)) ^ \
+                   CQV_T(2, CQV_P(d5)) ^ CQV_T(1, CQV_P(d6)) ^ CQV_T(0, CQV_P(d7)))
+#define CQV_H2(s) (CQV_T(5, CQV_L0(s, d2)) ^ CQV_T(4, CQV_L1(s, d3)) ^ CQV_T(3, CQV_L2(s, d4)) ^ CQV_T(2, CQV_L3(s, d5)) ^ \
+                   CQV_T(1, CQV_P(d6)) ^ CQV_T(0, CQV_P(d7)))
+#define CQV_H3(s) (CQV_T(4, CQV_L0(s, d3)) ^ CQV_T(3, CQV_L1(s, d4)) ^ CQV_T(2, CQV_L2(s, d5)) ^ CQV_T(1, CQV_L3(s, d6)) ^ \
+                   CQV_T(0, CQV_P(d7)))
+#define CQV_H4(s) (CQV_T(3, CQV_L0(s, d4)) ^ CQV_T(2, CQV_L1(s, d5)) ^ CQV_T(1, CQV_L2(s, d6)) ^ CQV_T(0, CQV_L3(s, d7)))
+#define CQV_H5(s) (CQV_T(2, CQV_L0(s, d5)) ^ CQV_T(1, CQV_L1(s, d6)) ^ CQV_T(0, CQV_L2(s, d7)) ^ ((s) >> 24))
+#define CQV_H6(s) (CQV_T(1, CQV_L0(s, d6)) ^ CQV_T(0, CQV_L1(s, d7)) ^ ((s) >> 16))
+#define CQV_H7(s) (CQV_T(0, CQV_L0(s, d7)) ^ ((s) >> 8))
+#define CQV_H8(s) (s)
 
 /* reachable module states of crc32.c: the two file-local statics are written only by
  * crc32_init_tables, so the state is either "flag == 0" (tables arbitrary: they are overwritten
@@ -82,76 +77,101 @@ static void cqv_module_state(int run_init) {
 }
 
 /* ---------------------------------------------------------------------------------------------
- * Lemmas (each one: contract enforced in its own job, then used by contract in the next)
+ * Lemmas (each one proved in its own job, then used by contract in the next)
  * ------------------------------------------------------------------------------------------- */
 
-/* L-byte: the tail-loop statement is one bit-serial byte step, all 2^40 (s, d) */
-void cqv_lemma_byte(uint32_t s, uint8_t d)
+/* L-byte: one bit-serial byte step equals the tail-loop statement, all 2^40 (s, d) */
+uint32_t cqv_spec_byte(uint32_t s, uint8_t d)
 __CPROVER_assigns()
-__CPROVER_ensures(cqv_B(s, d) == spec_crc32_byte(s, d))
+__CPROVER_ensures(__CPROVER_return_value == CQV_B(s, d))
 {
+  return spec_crc32_byte(s, d);
 }
 
-/* L-lin-j: table j is GF(2)-linear: Tj[a ^ b] == Tj[a] ^ Tj[b], all (a, b) */
-void cqv_lemma_lin(unsigned j, uint8_t a, uint8_t b)
-__CPROVER_requires(j < 8)
+/* L-lin-j: table j is GF(2)-linear, stated on three indices with p ^ q ^ r == 0:
+ * Tj[p] == Tj[q] ^ Tj[r], all 2^16 */
+#define CQV_LIN_STMT (crc32_tables[j][p] == (crc32_tables[j][q] ^ crc32_tables[j][r]))
+void cqv_lemma_lin(unsigned j, uint32_t p, uint32_t q, uint32_t r)
+__CPROVER_requires(j < 8 && p < 256 && q < 256 && r < 256 && (p ^ q ^ r) == 0)
 __CPROVER_assigns()
-__CPROVER_ensures(crc32_tables[j][(uint8_t)(a ^ b)] == (crc32_tables[j][a] ^ crc32_tables[j][b]))
+__CPROVER_ensures(CQV_LIN_STMT)
 {
 }
 
 /* L-rec: Tn[x] is n zero-byte steps of T0[x], written with the tables n-1..n-4 (all x, n = 1..7) */
-void cqv_lemma_rec(uint8_t x)
+void cqv_lemma_rec(uint32_t x)
+__CPROVER_requires(x < 256)
 __CPROVER_assigns()
-__CPROVER_ensures(CQV_T(1, x) == (CQV_T(0, CQV_Y(CQV_T(0, x), 0)) ^ (CQV_T(0, x) >> 8)))
-__CPROVER_ensures(CQV_T(2, x) == (CQV_T(1, CQV_Y(CQV_T(0, x), 0)) ^ CQV_T(0, CQV_Y(CQV_T(0, x), 1)) ^ (CQV_T(0, x) >> 16)))
-__CPROVER_ensures(CQV_T(3, x) == (CQV_T(2, CQV_Y(CQV_T(0, x), 0)) ^ CQV_T(1, CQV_Y(CQV_T(0, x), 1)) ^ CQV_T(0, CQV_Y(CQV_T(0, x), 2)) ^ (CQV_T(0, x) >> 24)))
-__CPROVER_ensures(CQV_T(4, x) == (CQV_T(3, CQV_Y(CQV_T(0, x), 0)) ^ CQV_T(2, CQV_Y(CQV_T(0, x), 1)) ^ CQV_T(1, CQV_Y(CQV_T(0, x), 2)) ^ CQV_T(0, CQV_Y(CQV_T(0, x), 3))))
-__CPROVER_ensures(CQV_T(5, x) == (CQV_T(4, CQV_Y(CQV_T(0, x), 0)) ^ CQV_T(3, CQV_Y(CQV_T(0, x), 1)) ^ CQV_T(2, CQV_Y(CQV_T(0, x), 2)) ^ CQV_T(1, CQV_Y(CQV_T(0, x), 3))))
-__CPROVER_ensures(CQV_T(6, x) == (CQV_T(5, CQV_Y(CQV_T(0, x), 0)) ^ CQV_T(4, CQV_Y(CQV_T(0, x), 1)) ^ CQV_T(3, CQV_Y(CQV_T(0, x), 2)) ^ CQV_T(2, CQV_Y(CQV_T(0, x), 3))))
-__CPROVER_ensures(CQV_T(7, x) == (CQV_T(6, CQV_Y(CQV_T(0, x), 0)) ^ CQV_T(5, CQV_Y(CQV_T(0, x), 1)) ^ CQV_T(4, CQV_Y(CQV_T(0, x), 2)) ^ CQV_T(3, CQV_Y(CQV_T(0, x), 3))))
+__CPROVER_ensures(CQV_T(1, x) == (CQV_T(0, CQV_R0(x)) ^ (CQV_T(0, x) >> 8)))
+__CPROVER_ensures(CQV_T(2, x) == (CQV_T(1, CQV_R0(x)) ^ CQV_T(0, CQV_R1(x)) ^ (CQV_T(0, x) >> 16)))
+__CPROVER_ensures(CQV_T(3, x) == (CQV_T(2, CQV_R0(x)) ^ CQV_T(1, CQV_R1(x)) ^ CQV_T(0, CQV_R2(x)) ^ (CQV_T(0, x) >> 24)))
+__CPROVER_ensures(CQV_T(4, x) == (CQV_T(3, CQV_R0(x)) ^ CQV_T(2, CQV_R1(x)) ^ CQV_T(1, CQV_R2(x)) ^ CQV_T(0, CQV_R3(x))))
+__CPROVER_ensures(CQV_T(5, x) == (CQV_T(4, CQV_R0(x)) ^ CQV_T(3, CQV_R1(x)) ^ CQV_T(2, CQV_R2(x)) ^ CQV_T(1, CQV_R3(x))))
+__CPROVER_ensures(CQV_T(6, x) == (CQV_T(5, CQV_R0(x)) ^ CQV_T(4, CQV_R1(x)) ^ CQV_T(3, CQV_R2(x)) ^ CQV_T(2, CQV_R3(x))))
+__CPROVER_ensures(CQV_T(7, x) == (CQV_T(6, CQV_R0(x)) ^ CQV_T(5, CQV_R1(x)) ^ CQV_T(4, CQV_R2(x)) ^ CQV_T(3, CQV_R3(x))))
 {
 }
 
-/* L-slide-k: consuming byte d_k with the byte step turns H_k into H_{k+1}.
- * Proof: x = s0 ^ d_k, t = T0[x], bytestep(s, d_k) = t ^ (s >> 8); every table index of H_{k+1} is
- * t_i ^ y_i with y_i the corresponding index of H_k; split by L-lin, collect the T[t_i] by L-rec. */
+/* L-slide-k: consuming byte d_k with the byte step (u = bytestep(s, d_k)) turns H_k into H_{k+1}.
+ * Proof: x = s0 ^ d_k, t = T0[x], u = t ^ (s >> 8); every table index of H_{k+1}(u) is
+ * t_i ^ (the corresponding index of H_k(s)); split by L-lin, collect the T[t_i] by L-rec.
+ * Proved "harness is the contract": the body is executed with L-lin/L-rec replaced by their
+ * contracts and ends with an assertion of the very expression of the ensures clause.
+ * (--enforce-contract would start from arbitrary statics, which turns the tables into 2048
+ * symbolic stores.) */
 #define CQV_SLIDE(K, K1, DK, PROOF)                                                      \
-  void cqv_lemma_slide##K(uint32_t s, CQV_D8)                                            \
+  void cqv_lemma_slide##K(uint32_t s, uint32_t u, CQV_D8)                                \
+  __CPROVER_requires(u == CQV_B(s, DK))                                                  \
   __CPROVER_assigns()                                                                    \
-  __CPROVER_ensures(cqv_H##K(s, CQV_A8) == cqv_H##K1(cqv_B(s, DK), CQV_A8))              \
+  __CPROVER_ensures(CQV_H##K(s) == CQV_H##K1(u))                                         \
   {                                                                                      \
-    uint8_t x = (uint8_t)(CQV_Y(s, 0) ^ DK);                                             \
-    uint32_t t = CQV_T(0, x);                                                            \
-    uint8_t t0 = (uint8_t)CQV_Y(t, 0), t1 = (uint8_t)CQV_Y(t, 1), t2 = (uint8_t)CQV_Y(t, 2), t3 = (uint8_t)CQV_Y(t, 3); \
-    uint8_t s1 = (uint8_t)CQV_Y(s, 1), s2 = (uint8_t)CQV_Y(s, 2), s3 = (uint8_t)CQV_Y(s, 3); \
-    cqv_lemma_rec(x);                                                                    \
+    cqv_lemma_rec(CQV_L0(s, DK));                                                        \
     PROOF                                                                                \
+    __CPROVER_assert(CQV_H##K(s) == CQV_H##K1(u), "slide lemma " #K ": H_k(s) == H_k+1(bytestep(s, d_k))"); \
   }
-#define CQV_L(j, a, b) cqv_lemma_lin(j, a, (uint8_t)(b));
-CQV_SLIDE(0, 1, d0, CQV_L(6, t0, s1 ^ d1) CQV_L(5, t1, s2 ^ d2) CQV_L(4, t2, s3 ^ d3) CQV_L(3, t3, d4))
-CQV_SLIDE(1, 2, d1, CQV_L(5, t0, s1 ^ d2) CQV_L(4, t1, s2 ^ d3) CQV_L(3, t2, s3 ^ d4) CQV_L(2, t3, d5))
-CQV_SLIDE(2, 3, d2, CQV_L(4, t0, s1 ^ d3) CQV_L(3, t1, s2 ^ d4) CQV_L(2, t2, s3 ^ d5) CQV_L(1, t3, d6))
-CQV_SLIDE(3, 4, d3, CQV_L(3, t0, s1 ^ d4) CQV_L(2, t1, s2 ^ d5) CQV_L(1, t2, s3 ^ d6) CQV_L(0, t3, d7))
-CQV_SLIDE(4, 5, d4, CQV_L(2, t0, s1 ^ d5) CQV_L(1, t1, s2 ^ d6) CQV_L(0, t2, s3 ^ d7))
-CQV_SLIDE(5, 6, d5, CQV_L(1, t0, s1 ^ d6) CQV_L(0, t1, s2 ^ d7))
-CQV_SLIDE(6, 7, d6, CQV_L(0, t0, s1 ^ d7))
+#define CQV_LI(j, p, q, r) cqv_lemma_lin(j, p, q, r);
+CQV_SLIDE(0, 1, d0, CQV_LI(6, CQV_L0(u, d1), CQV_L1(s, d1), CQV_R0(CQV_L0(s, d0))) CQV_LI(5, CQV_L1(u, d2), CQV_L2(s, d2), CQV_R1(CQV_L0(s, d0)))
+                    CQV_LI(4, CQV_L2(u, d3), CQV_L3(s, d3), CQV_R2(CQV_L0(s, d0))) CQV_LI(3, CQV_L3(u, d4), CQV_P(d4), CQV_R3(CQV_L0(s, d0))))
+CQV_SLIDE(1, 2, d1, CQV_LI(5, CQV_L0(u, d2), CQV_L1(s, d2), CQV_R0(CQV_L0(s, d1))) CQV_LI(4, CQV_L1(u, d3), CQV_L2(s, d3), CQV_R1(CQV_L0(s, d1)))
+                    CQV_LI(3, CQV_L2(u, d4), CQV_L3(s, d4), CQV_R2(CQV_L0(s, d1))) CQV_LI(2, CQV_L3(u, d5), CQV_P(d5), CQV_R3(CQV_L0(s, d1))))
+CQV_SLIDE(2, 3, d2, CQV_LI(4, CQV_L0(u, d3), CQV_L1(s, d3), CQV_R0(CQV_L0(s, d2))) CQV_LI(3, CQV_L1(u, d4), CQV_L2(s, d4), CQV_R1(CQV_L0(s, d2)))
+                    CQV_LI(2, CQV_L2(u, d5), CQV_L3(s, d5), CQV_R2(CQV_L0(s, d2))) CQV_LI(1, CQV_L3(u, d6), CQV_P(d6), CQV_R3(CQV_L0(s, d2))))
+CQV_SLIDE(3, 4, d3, CQV_LI(3, CQV_L0(u, d4), CQV_L1(s, d4), CQV_R0(CQV_L0(s, d3))) CQV_LI(2, CQV_L1(u, d5), CQV_L2(s, d5), CQV_R1(CQV_L0(s, d3)))
+                    CQV_LI(1, CQV_L2(u, d6), CQV_L3(s, d6), CQV_R2(CQV_L0(s, d3))) CQV_LI(0, CQV_L3(u, d7), CQV_P(d7), CQV_R3(CQV_L0(s, d3))))
+CQV_SLIDE(4, 5, d4, CQV_LI(2, CQV_L0(u, d5), CQV_L1(s, d5), CQV_R0(CQV_L0(s, d4))) CQV_LI(1, CQV_L1(u, d6), CQV_L2(s, d6), CQV_R1(CQV_L0(s, d4)))
+                    CQV_LI(0, CQV_L2(u, d7), CQV_L3(s, d7), CQV_R2(CQV_L0(s, d4))))
+CQV_SLIDE(5, 6, d5, CQV_LI(1, CQV_L0(u, d6), CQV_L1(s, d6), CQV_R0(CQV_L0(s, d5))) CQV_LI(0, CQV_L1(u, d7), CQV_L2(s, d7), CQV_R1(CQV_L0(s, d5))))
+CQV_SLIDE(6, 7, d6, CQV_LI(0, CQV_L0(u, d7), CQV_L1(s, d7), CQV_R0(CQV_L0(s, d6))))
 CQV_SLIDE(7, 8, d7, )
 
-/* L-block: the block statement of the real code equals eight bit-serial byte steps, all 2^96 */
-void cqv_lemma_block8(uint32_t c, CQV_D8)
+/* L-block: eight bit-serial byte steps equal the block statement of the real code, all 2^96.
+ * Proof: g_k+1 = byte step of g_k (L-byte), H_0(g_0) == H_1(g_1) == ... == H_8(g_8) = g_8 (L-slide).
+ * Proved like the slide lemmas (body executed with the inner lemmas replaced by their contracts,
+ * final assertion = ensures clause). */
+uint32_t cqv_spec_block8(uint32_t c, CQV_D8)
 __CPROVER_assigns()
-__CPROVER_ensures(cqv_H0(c, CQV_A8) == cqv_spec8(c, CQV_A8))
+__CPROVER_ensures(__CPROVER_return_value == CQV_H0(c))
 {
-  uint32_t s = c;
-  cqv_lemma_slide0(s, CQV_A8); cqv_lemma_byte(s, d0); s = cqv_B(s, d0);
-  cqv_lemma_slide1(s, CQV_A8); cqv_lemma_byte(s, d1); s = cqv_B(s, d1);
-  cqv_lemma_slide2(s, CQV_A8); cqv_lemma_byte(s, d2); s = cqv_B(s, d2);
-  cqv_lemma_slide3(s, CQV_A8); cqv_lemma_byte(s, d3); s = cqv_B(s, d3);
-  cqv_lemma_slide4(s, CQV_A8); cqv_lemma_byte(s, d4); s = cqv_B(s, d4);
-  cqv_lemma_slide5(s, CQV_A8); cqv_lemma_byte(s, d5); s = cqv_B(s, d5);
-  cqv_lemma_slide6(s, CQV_A8); cqv_lemma_byte(s, d6); s = cqv_B(s, d6);
-  cqv_lemma_slide7(s, CQV_A8); cqv_lemma_byte(s, d7); s = cqv_B(s, d7);
+  uint32_t g1 = cqv_spec_byte(c, d0);
+  uint32_t g2 = cqv_spec_byte(g1, d1);
+  uint32_t g3 = cqv_spec_byte(g2, d2);
+  uint32_t g4 = cqv_spec_byte(g3, d3);
+  uint32_t g5 = cqv_spec_byte(g4, d4);
+  uint32_t g6 = cqv_spec_byte(g5, d5);
+  uint32_t g7 = cqv_spec_byte(g6, d6);
+  uint32_t g8 = cqv_spec_byte(g7, d7);
+#ifdef CQV_PROVE_BLOCK8
+  cqv_lemma_slide0(c, g1, CQV_A8);
+  cqv_lemma_slide1(g1, g2, CQV_A8);
+  cqv_lemma_slide2(g2, g3, CQV_A8);
+  cqv_lemma_slide3(g3, g4, CQV_A8);
+  cqv_lemma_slide4(g4, g5, CQV_A8);
+  cqv_lemma_slide5(g5, g6, CQV_A8);
+  cqv_lemma_slide6(g6, g7, CQV_A8);
+  cqv_lemma_slide7(g7, g8, CQV_A8);
+  __CPROVER_assert(g8 == CQV_H0(c), "block lemma: eight bit-serial byte steps == block statement of the real code");
+#endif
+  return g8;
 }
 
 /* ---------------------------------------------------------------------------------------------
@@ -179,15 +199,16 @@ void h_tables(void) {
 
 void h_lemma_byte(void) {
   cqv_module_state(1);
-  cqv_lemma_byte(nondet_u32(), nondet_u8());
+  uint32_t r = cqv_spec_byte(nondet_u32(), nondet_u8());
   CQV_CANARY("byte lemma harness end");
 }
 
-#define CQV_CAT_(a, b) a##b
-#define CQV_CAT(a, b) CQV_CAT_(a, b)
 void h_lemma_lin(void) {
   cqv_module_state(1);
-  cqv_lemma_lin(CQV_K, nondet_u8(), nondet_u8());
+  unsigned j = CQV_K;
+  uint32_t p = nondet_u8(), q = nondet_u8(), r = p ^ q;
+  cqv_lemma_lin(j, p, q, r);
+  __CPROVER_assert(CQV_LIN_STMT, "table j is GF(2)-linear");
   CQV_CANARY("lin lemma harness end");
 }
 
@@ -197,17 +218,39 @@ void h_lemma_rec(void) {
   CQV_CANARY("rec lemma harness end");
 }
 
+#define CQV_CAT_(a, b) a##b
+#define CQV_CAT(a, b) CQV_CAT_(a, b)
+#if CQV_K == 0
+#define CQV_DK d0
+#elif CQV_K == 1
+#define CQV_DK d1
+#elif CQV_K == 2
+#define CQV_DK d2
+#elif CQV_K == 3
+#define CQV_DK d3
+#elif CQV_K == 4
+#define CQV_DK d4
+#elif CQV_K == 5
+#define CQV_DK d5
+#elif CQV_K == 6
+#define CQV_DK d6
+#else
+#define CQV_DK d7
+#endif
 void h_lemma_slide(void) {
   cqv_module_state(1);
-  CQV_CAT(cqv_lemma_slide, CQV_K)(nondet_u32(), nondet_u8(), nondet_u8(), nondet_u8(), nondet_u8(),
-                                  nondet_u8(), nondet_u8(), nondet_u8(), nondet_u8());
+  uint32_t s = nondet_u32();
+  uint8_t d0 = nondet_u8(), d1 = nondet_u8(), d2 = nondet_u8(), d3 = nondet_u8(), d4 = nondet_u8(), d5 = nondet_u8(),
+          d6 = nondet_u8(), d7 = nondet_u8();
+  uint32_t u = CQV_B(s, CQV_DK);
+  CQV_CAT(cqv_lemma_slide, CQV_K)(s, u, CQV_A8);
   CQV_CANARY("slide lemma harness end");
 }
 
 void h_lemma_block8(void) {
   cqv_module_state(1);
-  cqv_lemma_block8(nondet_u32(), nondet_u8(), nondet_u8(), nondet_u8(), nondet_u8(),
-                   nondet_u8(), nondet_u8(), nondet_u8(), nondet_u8());
+  uint32_t r = cqv_spec_block8(nondet_u32(), nondet_u8(), nondet_u8(), nondet_u8(), nondet_u8(),
+                               nondet_u8(), nondet_u8(), nondet_u8(), nondet_u8());
   CQV_CANARY("block lemma harness end");
 }
 
